@@ -1,4 +1,5 @@
 import TrionModel.Lemmas.TridasAsm
+import TrionModel.Lemmas.TridasRun
 /-!
 # C20 — the tridas listing re-assembles to the code it was produced from
 
@@ -79,8 +80,9 @@ theorem labels_unique_wellFormed {decode : Decoder} {b : List UInt8} {es : List 
     simp [hbr, hex]
 
 /-- C20.roundtrip (partial)  If additionally the entries are consecutive (`Chain es BASE (BASE + b.length)`: the
-segmentation covers every byte) and `encode` inverts the decoder on them (what C02 provides:
-`encode e.instr = the bytes of e in b`), then the listing is produced and its instruction lines, re-encoded in order,
+segmentation covers every byte) and `encode` inverts the decoder on them (`encode e.instr = the bytes of e in b`:
+the file is CANONICALLY encoded — C03 `dec_canon` gives only "same length, decodes to the same instruction"; see
+`alias_not_reproduced` below), then the listing is produced and its instruction lines, re-encoded in order,
 concatenate to the input file.
 
 Full statement `listing_roundtrip : wellFormedBinary b → Asm.run (text (listing b)) = .success {0x20000000 ↦ b}`.
@@ -161,6 +163,128 @@ theorem listing_roundtrip_layout {decode : Decoder} {b : List UInt8} {es : List 
     rw [h2] at e1
     cases e1
     rw [hg k, himg k]
+
+
+/-! ## on the text, through the whole pipeline model
+
+`listingText ls` (`Lemmas/TridasText.lean`) is what the `println!`s write for the lines: `.addr 0x20000000;⏎`, empty lines,
+`l_XXXXXXXX:⏎`, `⇥<instr.at(addr)>⏎`.  `EntryOk b e` (`Lemmas/TridasRun.lean`): the instruction of `e` is encodable and
+well-formed, its PC-relative target lies inside the address space, and the bytes of `e` in `b` are its CANONICAL
+encoding. -/
+
+/-- C20.text  The tokenizer and parser models read the whole listing text back as exactly the statements of its lines
+(the `.addr` directive, one label statement per label line, one instruction statement `Show.parts` per instruction
+line), without error — for every listing whose instructions carry no negative literal (every decoded instruction). -/
+theorem listing_parses (ls : List Line) (h : LinesOk ls) :
+    ∃ els, Asm.parseFile (listingText ls) = .ok (els, none) ∧ els.map (·.val) = ls.flatMap lineVals :=
+  parseFile_listing ls h
+
+/-- C20.roundtrip on text, **labels defined before use**.  Under the property's hypothesis (`WellFormed`, gap-free
+`Chain`), for a canonically encoded file (`EntryOk`, see `alias_not_reproduced`) without PC-relative data references
+(`hpc`: the label an instruction line mentions is its direct-branch target — excludes ADR / literal LDR, whose labels
+tridas never defines) in which every direct branch goes to an instruction boundary inside the file AT OR BEFORE the
+branch itself (`hback`): the listing is produced, and `Asm.run` — the whole pipeline model: tokenizer, parser, `.addr`,
+label definitions, every instruction statement through evaluator / front end / encoder, output region, task loops,
+`close_segment`, `finalize` — on its text succeeds, records no diagnostic, and its image is exactly the input file at
+0x20000000.
+
+Full statement `listing_roundtrip`: the same without `hback … ≤ e.addr`, i.e. with FORWARD branches. Missing for it:
+the deferred path of `Asm.instruction` on this program — an instruction line whose label is defined later is placed as
+a 0xBE placeholder of the same length (`encoder_len`) and queued as a local task; at the end of the file the task
+re-runs `Front.assemble` (for B/BL the deferral happens at operand 0, so the queued `ArmInstr` is the initial one and
+the re-run is a fresh `Front.build` over the now complete table — `show_assembles_eval` applies) and rewrites the
+placeholder through `write_at`. The statement-loop invariant of `entries_run` (buffer = file prefix, table binds exactly
+the labels below the cursor) has to be extended by "…except at the placeholders of the queued tasks" and a lemma
+for the task round is needed; lexing, parsing, label definitions, completed instructions, and `run`'s wrapper are done. -/
+theorem listing_roundtrip_backward {decode : Decoder} {b : List UInt8} {es : List Entry}
+    (wf : WellFormed decode b es) (hc : Chain es BASE (BASE + b.length)) (hok : ∀ e ∈ es, EntryOk b e)
+    (hpc : ∀ e ∈ es, Show.targetOf e.instr e.addr = getBranch e.instr e.addr)
+    (hback : ∀ e ∈ es, ∀ d, getBranch e.instr e.addr = some d → d ≤ e.addr ∧ inFile b.length d) :
+    ∃ ls, listing decode b = .ok ls ∧
+      ∀ (fs : Bytes → Option Bytes) (main : Bytes), fs main = some (listingText ls) →
+        Asm.run fs main = .done ⟨true, none, true, [], [(BASE, b)]⟩ := by
+  obtain ⟨st, hst, hes⟩ := traverse_covers_ok wf
+  have hl : listing decode b = .ok (Line.header :: render st.branches st.instrs false BASE) := by
+    unfold listing; rw [hst]
+  rw [hes] at hl
+  refine ⟨_, hl, fun fs main hfs => ?_⟩
+  have hne : b ≠ [] := by
+    obtain ⟨e, he, _⟩ := wf.first
+    have := wf.size e he
+    intro h; subst h; simp at this; omega
+  have hsmall : BASE + b.length ≤ 4294967296 := by have := wf.small; unfold two32 at this; omega
+  refine listing_run fs main b st.branches es hne hsmall hc hok ?_ hfs
+  intro e he t ht
+  rw [hpc e he] at ht
+  obtain ⟨h1, h2⟩ := hback e he t ht
+  have hbr := traverse_brInv hst e (by rw [hes]; exact he) t ht
+  exact ⟨h1, by simpa using hbr, wf.targets e he t ht h2⟩
+
+/-- C20.roundtrip, semantic form — **no canonical-encoding hypothesis** (alias encodings allowed). Under the other
+hypotheses of `listing_roundtrip_backward`, with every instruction of the file merely encodable in its own length
+(`henc`; what C03 `dec_canon` gives for decoded instructions): the re-assembled image is a file `b'` of the same
+length whose segmentation is the same `es` — same addresses, same instructions, same lengths — each instruction now in
+its canonical encoding (`EntryOk b' e`). So the image decodes to the same instruction sequence; it equals `b` byte for
+byte iff `b` was canonically encoded. -/
+theorem listing_roundtrip_semantic {decode : Decoder} {b : List UInt8} {es : List Entry}
+    (wf : WellFormed decode b es) (hc : Chain es BASE (BASE + b.length))
+    (henc : ∀ e ∈ es, ∃ hws, Codec.encode e.instr = .ok hws ∧ e.instr.wf ∧ Show.targetInRange e.instr e.addr ∧
+      2 * hws.length = e.after - e.addr)
+    (hpc : ∀ e ∈ es, Show.targetOf e.instr e.addr = getBranch e.instr e.addr)
+    (hback : ∀ e ∈ es, ∀ d, getBranch e.instr e.addr = some d → d ≤ e.addr ∧ inFile b.length d) :
+    ∃ ls b', listing decode b = .ok ls ∧ b'.length = b.length ∧ (∀ e ∈ es, EntryOk b' e) ∧
+      ∀ (fs : Bytes → Option Bytes) (main : Bytes), fs main = some (listingText ls) →
+        Asm.run fs main = .done ⟨true, none, true, [], [(BASE, b')]⟩ := by
+  obtain ⟨st, hst, hes⟩ := traverse_covers_ok wf
+  have hl : listing decode b = .ok (Line.header :: render st.branches st.instrs false BASE) := by
+    unfold listing; rw [hst]
+  rw [hes] at hl
+  have hcl : ∀ e ∈ es, (canon e).length = e.after - e.addr := by
+    intro e he
+    obtain ⟨hws, h1, _, _, h4⟩ := henc e he
+    simp [canon, h1, Asm.toBytes_length, h4]
+  obtain ⟨hlen, hsl⟩ := canon_slices es BASE (BASE + b.length) [] hc (Nat.le_refl _) (by simp) hcl
+  simp only [List.nil_append] at hlen hsl
+  have hlen' : ((es.map canon).flatten).length = b.length := by omega
+  have hok : ∀ e ∈ es, EntryOk ((es.map canon).flatten) e := by
+    intro e he
+    obtain ⟨hws, h1, h2, h3, _⟩ := henc e he
+    exact ⟨hws, h1, h2, h3, by rw [hsl e he]; simp [canon, h1]⟩
+  refine ⟨_, (es.map canon).flatten, hl, hlen', hok, fun fs main hfs => ?_⟩
+  have hne : (es.map canon).flatten ≠ [] := by
+    obtain ⟨e, he, _⟩ := wf.first
+    have := wf.size e he
+    intro h; rw [h] at hlen'; simp at hlen'; omega
+  have hsmall : BASE + ((es.map canon).flatten).length ≤ 4294967296 := by
+    have := wf.small; unfold two32 at this; omega
+  refine listing_run fs main _ st.branches es hne hsmall (by rw [hlen']; exact hc) hok ?_ hfs
+  intro e he t ht
+  rw [hpc e he] at ht
+  obtain ⟨h1, h2⟩ := hback e he t ht
+  have hbr := traverse_brInv hst e (by rw [hes]; exact he) t ht
+  exact ⟨h1, by simpa using hbr, wf.targets e he t ht h2⟩
+
+/-- **The property's "reproduces every input byte" fails for alias encodings** (known finding K3). `40 1C` is
+`ADDS R0, R0, #1` in the three-operand form (T1) with Rd = Rn; the decoder returns `add true 0 0 (imm 1)`, tridas prints
+`ADDS R0, R0, 1;`, and the encoder emits the two-operand form `01 30` (T2): the same instruction in the ARMv6-M table
+(C01 `enc_complete`'s alias clause), but not the same bytes. Hence `EntryOk` (canonical encoding) in the theorems. -/
+theorem alias_not_reproduced :
+    Codec.decode [0x40, 0x1C] = .ok (2, .add true 0 0 (.imm 1)) ∧
+    Codec.encode (.add true 0 0 (.imm 1)) = .ok [0x3001] ∧ Codec.toBytes [0x3001] = [0x01, 0x30] ∧
+    Show.text (.add true 0 0 (.imm 1)) 0x20000000 = bytesOf "ADDS R0, R0, 1;" := ⟨rfl, rfl, rfl, by decide⟩
+
+/-- non-vacuity of `listing_run` / `listing_roundtrip_backward`: the file `FE D0 70 47` = `l: BEQ l; BX LR` -/
+example : Chain [⟨0x20000000, .b 0 (-4), 0x20000002⟩, ⟨0x20000002, .bx 14, 0x20000004⟩] BASE (BASE + 4) ∧
+    (∀ e ∈ [(⟨0x20000000, .b 0 (-4), 0x20000002⟩ : Entry), ⟨0x20000002, .bx 14, 0x20000004⟩],
+      EntryOk [0xFE, 0xD0, 0x70, 0x47] e) ∧
+    Show.targetOf (.b 0 (-4)) 0x20000000 = getBranch (.b 0 (-4)) 0x20000000 ∧
+    getBranch (.b 0 (-4)) 0x20000000 = some 0x20000000 := by
+  refine ⟨by simp [Chain, BASE], ?_, by decide, by decide⟩
+  intro e he
+  simp at he
+  rcases he with rfl | rfl
+  · exact ⟨[0xD0FE], rfl, by simp [Instr.wf, inI32], by simp [Show.targetInRange, Front.pcOf], by decide⟩
+  · exact ⟨[0x4770], rfl, trivial, trivial, by decide⟩
 
 /-- a hand-made decoder for a two-instruction file `BEQ l_20000002; BX LR` -/
 private def exDecode : Decoder := fun bs =>
